@@ -89,6 +89,36 @@ theorem resolve_instance_settings (cls inst : Attrs) (exe : String) (n : Nat)
     (resolve {} cls inst).envars = dmerge cls.envars inst.envars := by
   simp [resolve, he, hn, dmerge]
 
+/-- the instance's own class can be folded into the instance: `resolve` with the class given separately and with the
+class attributes folded in agree on executable, processor count and memory (and on the environment as a mapping) -/
+theorem resolve_foldClass (job cls inst : Attrs) :
+    (resolve job {} (foldClass cls inst)).executable = (resolve job cls inst).executable ∧
+    (resolve job {} (foldClass cls inst)).nprocs = (resolve job cls inst).nprocs ∧
+    (resolve job {} (foldClass cls inst)).memory = (resolve job cls inst).memory := by
+  refine ⟨?_, ?_, ?_⟩ <;> simp only [resolve, foldClass] <;>
+    (first | cases job.executable <;> cases inst.executable <;> cases cls.executable <;> rfl
+           | cases job.nprocs <;> cases inst.nprocs <;> cases cls.nprocs <;> rfl
+           | cases job.memory <;> cases inst.memory <;> cases cls.memory <;> rfl)
+
+/-- "reflects that driver instance's executable": an instance created with an explicit `executable=` prepares inputs with
+exactly that program (as found on the PATH when `find`), an instance created without one with its class's declared
+default — whatever other instances, of this or other classes, with explicit or default executables, were created or used
+before (`bind_history_independent`: nothing but the instance's own attributes enters). -/
+theorem prepared_executable_is_the_requested_one (which : String → Option String) (decl : Option String) (req cls : Attrs)
+    (find : Bool) (hist : List Ev) (i : Nat)
+    (hi : lookupInst (instsAfter [] hist) i = some (foldClass cls (initAttrs which decl req find))) :
+    ((runEvs .repaired {} { job := {}, insts := [] } (hist ++ [.use i])).2.getLast?.bind id).map (·.executable) =
+      some ((initExecutable which decl req.executable find) <|> cls.executable) := by
+  rw [bind_history_independent {} {} hist i _ hi]
+  simp [resolve, foldClass, initAttrs]
+
+example : initExecutable (fun n => if n = "xtb" then some "/usr/bin/xtb" else if n = "myxtb" then some "/opt/bin/myxtb" else none)
+      (some "xtb") none true = some "/usr/bin/xtb" ∧
+    initExecutable (fun n => if n = "xtb" then some "/usr/bin/xtb" else if n = "myxtb" then some "/opt/bin/myxtb" else none)
+      (some "xtb") (some "myxtb") true = some "/opt/bin/myxtb" ∧
+    initExecutable (fun _ => none) (some "xtb") (some "/abs/prog") false = some "/abs/prog" := by
+  decide
+
 def d33a : Attrs := { executable := some "xtb-a", nprocs := some 2, envars := [("OMP", "2")] }
 def d33b : Attrs := { executable := some "xtb-b", nprocs := some 8, envars := [("MKL", "8")] }
 
